@@ -187,7 +187,12 @@ jpeg_mem_dest_tj(j_compress_ptr cinfo, unsigned char **outbuffer,
   dest->outsize = outsize;
   dest->alloc = alloc;
 
-  if (*outbuffer == NULL || *outsize == 0) {
+  /* When a buffer from a previous compression operation is reused, *outsize is
+   * ignored (the actual capacity of the buffer is known), so a value of 0 must
+   * not cause the buffer to be replaced (and leaked) while its old capacity is
+   * retained.
+   */
+  if (*outbuffer == NULL || (*outsize == 0 && !reused)) {
     if (alloc) {
       /* Allocate initial buffer */
       dest->newbuffer = *outbuffer = (unsigned char *)MALLOC(OUTPUT_BUF_SIZE);
